@@ -42,7 +42,7 @@ impl Focus {
     /// clauses of the model this check evaluates
     fn evaluates(&self, clause: &str, cfg: &Cfg, info: &StepInfo) -> bool {
         match self {
-            Focus::C01 => matches!(clause, "value" | "hit-absent" | "stale-store" | "store-invented-key"),
+            Focus::C01 => matches!(clause, "value" | "hit-absent" | "stale-store" | "store-invented-key" | "stale-after-oversize-store"),
             Focus::C03 => matches!(clause, "miss-present" | "get-changed-store" | "count"),
             Focus::C04 => match clause {
                 "bound" | "count" | "get-changed-store" | "clear-left" => true,
